@@ -13,9 +13,9 @@ cp $wt/mutant_$i/notes.md $d/notes.md 2>/dev/null
 export NUMBA_CACHE_DIR=/tmp/nbc_seed_${pid}_$i
 [ -d $wt/sigpyproc.egg-info ] || cp -r /repo/sigpyproc.egg-info $wt/ 2>/dev/null
 cd $wt && git checkout -q -- sigpyproc
-PYTHONPATH=$wt /venv/bin/python $d/demo.py > $d/demo_pristine.log 2>&1; p0=$?
+PYTHONPATH=$wt /venv/bin/python $wt/mutant_$i/demo.py > $d/demo_pristine.log 2>&1; p0=$?
 git apply $d/patch.diff || { echo "patch does not apply"; exit 9; }
-PYTHONPATH=$wt /venv/bin/python $d/demo.py > $d/demo_patched.log 2>&1; p1=$?
+PYTHONPATH=$wt /venv/bin/python $wt/mutant_$i/demo.py > $d/demo_patched.log 2>&1; p1=$?
 t1=skipped
 if [ -n "$tests" ]; then PYTHONPATH=$wt /venv/bin/python -m pytest -q -p no:cacheprovider $tests > $d/tests_patched.log 2>&1; t1=$?; fi
 cd /verif
